@@ -54,7 +54,7 @@ def interesting_distances(rng, p, n, k):
             if 0 <= v < top and (e < 8 or rng.random() < 0.25):
                 s.add(v)
     # quadrant boundaries of the top levels
-    for q in range(1, 1 << n):
+    for q in (range(1, 1 << n) if n <= 4 else [1, 2, 3, (1 << n) - 1, (1 << n) - 2]):
         v = q << (n * (p - 1))
         for d in (-1, 0):
             if 0 <= v + d < top:
@@ -235,7 +235,7 @@ def run(rep):
         # ---- distance -> coordinate
         try:
             vec = U.cfd_vector(p, n, hs)
-            sca = U.cfd_scalar(p, n, hs) if (label == 'sample' or len(hs) <= 4096) else None
+            sca = U.cfd_scalar(p, n, hs)
         except Exception as e:
             rep.violation('raises:cfd', f'coordinate(s)_from_distance(s) raised {type(e).__name__}: {e}',
                           {'dir': 'cfd', 'p': p, 'n': n, 'hs': hs[:50]})
@@ -254,10 +254,7 @@ def run(rep):
         # ---- coordinate -> distance
         try:
             dvec, untouched = U.dfc_vector(p, cells)
-            if label == 'sample' or len(cells) <= 4096:
-                dsca, states = U.dfc_scalar(p, cells)
-            else:
-                dsca, states = None, None
+            dsca, states = U.dfc_scalar(p, cells)
         except Exception as e:
             rep.violation('raises:dfc', f'distance(s)_from_coordinate(s) raised {type(e).__name__}: {e}',
                           {'dir': 'dfc', 'p': p, 'n': n, 'cells': cells[:50]})
